@@ -251,6 +251,8 @@ def stmt_paths(func_node):
             if isinstance(st, ast.Try):
                 for k, h in enumerate(st.handlers):
                     rec(h.body, p, id(st), "handler%d" % k)
+    if isinstance(func_node, ast.Lambda):
+        return out
     rec(func_node.body, (), id(func_node), "body")
     return out
 
